@@ -180,6 +180,14 @@ def r2(repo, chk):
         chk.ob("R2", "the unblock loop clears blocked / blocked_frame_type / blocked_frame_size before it continues parsing the stream", ok, "a frame that blocks again during the continued parse records its kind, and a clear placed after the call wipes it: the second blocked frame is later resumed as nothing (events and end-of-stream lost)", uni.loc(uni.node))
         ok = all(c.lineno < st.lineno for st in clears for c in resumes)
         chk.ob("R2", "the recorded kind is cleared only after the resume call has read it", ok, "", uni.loc(uni.node))
+    # end-of-stream is attached to the frame that really is the last thing of the stream: nothing buffered behind it
+    for c in resumes:
+        se = get_kw(c, "stream_ended")
+        chk.ob("R2", "a resumed frame carries end-of-stream only if the stream ended and nothing is buffered behind the frame", se is not None and norm(se) == "stream.receiving_ended and (not stream.buffer)", f"stream_ended={norm(se) if se is not None else None}: end-of-stream would be reported before (and again after) the buffered frames, depending on when the encoder stream arrived", uni.loc(c))
+    for c in rr.calls(name="self._handle_request_or_push_frame"):
+        se = get_kw(c, "stream_ended")
+        if _loop_of(c) is not None:
+            chk.ob("R2", "in the parse loop a frame carries end-of-stream only if the stream ended and the frame is the last thing in the buffer", se is not None and norm(se) == "stream.receiving_ended and buf.eof()", f"stream_ended={norm(se) if se is not None else None}", rr.loc(c))
     ie = Fn(repo, "h3.connection:H3Stream.is_ended")
     rets = [r for r in ie.returns() if r.value is not None]
     ok = bool(rets) and all("not self.blocked" in norm(r.value) and " or " not in norm(r.value) for r in rets)
@@ -229,6 +237,23 @@ def r3(repo, chk):
         head = cfg.tedge[loop]
         escapes = cfg.reaches(head, cfg.exit, avoid=avoid)
         chk.ob("R3", f"{name}: every return reachable from inside the parse loop first trims stream.buffer to the unconsumed tail (or empties it)", not escapes and bool(trims), "a path leaves the function with processed bytes still in stream.buffer: the next delivery parses them again, so the events depend on where the delivery boundary fell", fn.loc(loop))
+        # whatever was pulled successfully is accounted for before the loop goes round or the remainder is stored
+        upd = [st for st, v in cons if norm(v) == "buf.tell()" and inside(st, loop)]
+        avoid_upd = {cfg.begin[st] for st in upd}
+        # an item whose later part is missing is abandoned as a whole (BufferReadError -> break): nothing of it counts as handled
+        for t in fn.stmts(lambda s: isinstance(s, ast.Try) and inside(s, loop)):
+            for h in t.handlers:
+                if h.type is not None and norm(h.type) == "BufferReadError":
+                    avoid_upd |= {cfg.begin[b] for b in h.body if b in cfg.begin}
+        targets = [cfg.begin[loop]] + [cfg.begin[st] for st in trims if norm(st.value) == "stream.buffer[consumed:]"]
+        for c in fn.calls():
+            if not (call_name(c).startswith("buf.pull_") and inside(c, loop)):
+                continue
+            st = cfg.stmt_of(c)
+            if st not in cfg.done:
+                continue
+            leak = [t for t in targets if cfg.reaches(cfg.done[st], t, avoid=avoid_upd)]
+            chk.ob("R3", f"{name}: after `{norm(c)[:40]}` succeeded, `consumed = buf.tell()` runs before the next iteration or the remainder is stored", not leak, "bytes that were pulled and acted upon stay in stream.buffer: they are parsed and reported a second time with the next delivery", fn.loc(c))
         # delegating returns pass the empty chunk (no double append)
         for r in fn.returns():
             if r.value is not None and isinstance(r.value, ast.Call) and call_name(r.value) == "self._receive_request_or_push_data":
